@@ -21,8 +21,8 @@ const rule = "the path space of C02 (real extender, real combinator, 3-10 ASes, 
 func main() {
 	netgen.Main("C03", "Prov.check03", rule, func(x *netgen.Ctx) {
 		run := x.Run
-		nWorlds := run.Count(12, 300)
-		perWorld := 12
+		nWorlds := run.Count(8, 300)
+		perWorld := 10
 		if run.Tier == "thorough" {
 			perWorld = 40
 		}
@@ -34,6 +34,10 @@ func main() {
 			}
 			if !s.Walk.Delivered() {
 				run.Tally("request-not-delivered:" + s.Walk.Final.StopDesc)
+				if _, expired, _ := p.ExpiryMargin(x.Now); !expired {
+					run.Violate(-1, "the request along a valid path was not delivered (see C02): "+s.Walk.Final.StopDesc,
+						s.Describe(w))
+				}
 				return
 			}
 			how := i % len(netgen.ReplyHow)
@@ -79,6 +83,10 @@ func main() {
 			id := run.Add("reply", term, fmt.Sprintf("%s|%x", topo, rraw), len(p.Slices) >= 2 || p.Shortcut || p.Peering, desc)
 			if back.Panic != "" {
 				run.Violate(id, "router panicked: "+back.Panic, desc)
+			}
+			if !back.Delivered() {
+				run.Violate(id, "the reply to a delivered packet was not delivered: "+back.Final.Kind+" "+
+					back.Final.StopDesc, desc)
 			}
 		})
 	})
